@@ -17,14 +17,18 @@ Definition imp_loop (W : world) (rec : string -> string -> envdef -> M chain) (r
         match s with
         | Some i =>
             if is_evaluating i then err ;;; go rest base my
-            else proceed (match is_value i with Some v => v | None => [] end)
+            else match is_value i with
+                 | Some v => proceed v
+                 | None => go rest base my
+                 end
         | None =>
             failed <- call W ;;
             emit (EvLoad n) ;;;
+            let remember_failure := imps_set n {| is_evaluating := false; is_value := None |} in
             match (if failed then LoadFail
                    else match alookup n (w_envs W) with Some l => l | None => LoadFail end) with
-            | LoadFail => err ;;; go rest base my
-            | LoadNoParse => err ;;; go rest base my
+            | LoadFail => err ;;; remember_failure ;;; go rest base my
+            | LoadNoParse => err ;;; remember_failure ;;; go rest base my
             | LoadOk d' =>
                 v <- rec root' n d' ;;
                 imps_set n {| is_evaluating := false; is_value := Some v |} ;;;
@@ -41,7 +45,7 @@ Definition env_ctx (W : world) (root' name : string) (d : envdef) (base : chain)
 
 Lemma eval_env_S (W : world) (f : nat) (root name : string) (d : envdef) :
   eval_env W (S f) root name d =
-    (let root' := if String.eqb root "" then name else root in
+    (let root' := if String.eqb root "" || String.eqb root "<yaml>" then name else root in
      imps_set name {| is_evaluating := true; is_value := None |} ;;;
      r <- imp_loop W (eval_env W f) root' (ed_imports d) [] [] ;;
      let '(base, my) := r in
@@ -65,12 +69,15 @@ Lemma imp_loop_cons (W : world) rec r n merge rest base my s :
     match alookup n (imps s) with
     | Some i =>
         if is_evaluating i then imp_loop W rec r rest base my (snd (err s))
-        else let v := match is_value i with Some v => v | None => [] end in
-             imp_loop W rec r rest (if merge then v ++ base else base) (ainsert n v my) s
+        else match is_value i with
+             | Some v => imp_loop W rec r rest (if merge then v ++ base else base) (ainsert n v my) s
+             | None => imp_loop W rec r rest base my s
+             end
     | None =>
         let s1 := snd (emit (EvLoad n) (snd (call W s))) in
         match load_of W n s with
-        | LoadFail | LoadNoParse => imp_loop W rec r rest base my (snd (err s1))
+        | LoadFail | LoadNoParse =>
+            imp_loop W rec r rest base my (set_imps n {| is_evaluating := false; is_value := None |} (snd (err s1)))
         | LoadOk d' =>
             let '(v, s2) := rec r n d' s1 in
             imp_loop W rec r rest (if merge then v ++ base else base) (ainsert n v my)
@@ -82,18 +89,20 @@ Proof.
     with (bind (imps_get n) (fun s0 =>
             match s0 with
             | Some i => if is_evaluating i then err ;;; imp_loop W rec r rest base my
-                        else imp_loop W rec r rest (if merge then (match is_value i with Some v => v | None => [] end) ++ base else base)
-                               (ainsert n (match is_value i with Some v => v | None => [] end) my)
+                        else match is_value i with
+                             | Some v => imp_loop W rec r rest (if merge then v ++ base else base) (ainsert n v my)
+                             | None => imp_loop W rec r rest base my
+                             end
             | None => failed <- call W ;; emit (EvLoad n) ;;;
                 match (if failed then LoadFail else match alookup n (w_envs W) with Some l => l | None => LoadFail end) with
-                | LoadFail => err ;;; imp_loop W rec r rest base my
-                | LoadNoParse => err ;;; imp_loop W rec r rest base my
+                | LoadFail => err ;;; imps_set n {| is_evaluating := false; is_value := None |} ;;; imp_loop W rec r rest base my
+                | LoadNoParse => err ;;; imps_set n {| is_evaluating := false; is_value := None |} ;;; imp_loop W rec r rest base my
                 | LoadOk d' => v <- rec r n d' ;; imps_set n {| is_evaluating := false; is_value := Some v |} ;;;
                                imp_loop W rec r rest (if merge then v ++ base else base) (ainsert n v my)
                 end
             end) s).
   unfold bind at 1, imps_get. destruct (alookup n (imps s)) as [i|].
-  - destruct (is_evaluating i); reflexivity.
+  - destruct (is_evaluating i); [reflexivity|]. destruct (is_value i); reflexivity.
   - unfold load_of. unfold bind at 1. destruct (call W s) as [failed s1] eqn:Ec. cbn [fst snd].
     unfold bind at 1. cbn [emit fst snd].
     destruct (if failed then LoadFail else match alookup n (w_envs W) with Some l => l | None => LoadFail end) as [| |d'];
@@ -109,8 +118,10 @@ Proof. intros H. unfold call. now rewrite H. Qed.
 Theorem imports_table_is_memo (W : world) rec r n merge rest base my s i :
   alookup n (imps s) = Some i -> is_evaluating i = false ->
   imp_loop W rec r ((n, merge) :: rest) base my s =
-    let v := match is_value i with Some v => v | None => [] end in
-    imp_loop W rec r rest (if merge then v ++ base else base) (ainsert n v my) s.
+    match is_value i with
+    | Some v => imp_loop W rec r rest (if merge then v ++ base else base) (ainsert n v my) s
+    | None => imp_loop W rec r rest base my s      (* a remembered failure: not loaded again, nothing merged or stored *)
+    end.
 Proof. intros H1 H2. rewrite imp_loop_cons, H1, H2. reflexivity. Qed.
 
 (* an import in progress is a cycle: one diagnostic, nothing merged, nothing stored *)
@@ -163,7 +174,7 @@ Theorem imp_loop_base_irrelevant (W : world) rec r is base base' my s :
 Proof.
   revert base base' my s. induction is as [|[n merge] rest IH]; intros base base' my s; [split; reflexivity|].
   rewrite !imp_loop_cons. destruct (alookup n (imps s)) as [i|].
-  - destruct (is_evaluating i); [apply IH|]. cbv zeta. apply IH.
+  - destruct (is_evaluating i); [apply IH|]. destruct (is_value i); apply IH.
   - cbv zeta. destruct (load_of W n s) as [| |d']; [apply IH|apply IH|].
     destruct (rec r n d' _) as [v s2]. apply IH.
 Qed.
